@@ -125,7 +125,7 @@ impl Check for C17 {
         "substitute"
     }
     fn cases(&self, tier: Tier) -> usize {
-        tier.pick(40_000, 1_200_000)
+        tier.pick(1_000_000, 20_000_000)
     }
     fn strategy(&self, _tier: Tier) -> BoxedStrategy<Case> {
         let c = cfg();
